@@ -816,6 +816,263 @@ pub fn all_bad(rng: &mut Rng, i: usize) -> Case {
     c
 }
 
+// ------------------------------------------------ faults at several stages at once
+
+#[derive(Clone, Copy, PartialEq)]
+enum MBody {
+    None,
+    Json,
+    Form,
+    Raw,
+    Multipart,
+}
+
+/// (endpoint, method, path prefix, has path, has query, body)
+const MULTI_EPS: [(&str, &str, &str, bool, bool, MBody); 5] = [
+    ("m_pq", "GET", "/m/pq", true, true, MBody::None),
+    ("m_pqj", "PUT", "/m/pqj", true, true, MBody::Json),
+    ("m_pf", "PUT", "/m/pf", true, false, MBody::Form),
+    ("m_qr", "PUT", "/m/qr", false, true, MBody::Raw),
+    ("m_pqm", "POST", "/m/pqm", true, true, MBody::Multipart),
+];
+
+/// one request with a fault in every stage of `faulty` (bit 0 path, 1 query, 2 body)
+pub fn multi_fault(rng: &mut Rng, epi: usize, faulty: u8, variant: usize) -> Option<Case> {
+    let (ep, method, prefix, has_p, has_q, body_kind) = MULTI_EPS[epi % MULTI_EPS.len()];
+    let stages = (has_p as u8) | ((has_q as u8) << 1) | (((body_kind != MBody::None) as u8) << 2);
+    if faulty == 0 || faulty & !stages != 0 {
+        return None;
+    }
+    let cap = crate::ep::CAP_SMALL;
+    let tn = Sty::Int { signed: false, bits: 32 };
+    let mut t2 = vec![];
+    let mut tags = vec![format!("multi:{}", ep)];
+    let names: Vec<&str> =
+        [(1u8, "path"), (2, "query"), (4, "body")].iter().filter(|(b, _)| faulty & b != 0).map(|(_, n)| *n).collect();
+    tags.push(format!("multi:faults-{}", names.join("+")));
+    // ---- path
+    let mut target = prefix.as_bytes().to_vec();
+    let mut path_coq = "None".to_string();
+    if has_p {
+        let (rt, rn) = if faulty & 1 != 0 {
+            match variant % 3 {
+                0 => {
+                    tags.push("fault:path-wrong-type".into());
+                    (enc_segment(rng, b"pt"), enc_segment(rng, b"abc"))
+                }
+                1 => {
+                    tags.push("fault:path-out-of-range".into());
+                    (enc_segment(rng, b"pt"), enc_segment(rng, b"4294967296"))
+                }
+                _ => {
+                    tags.push("fault:path-invalid-utf8".into());
+                    (b"%FF".to_vec(), enc_segment(rng, b"5"))
+                }
+            }
+        } else {
+            (enc_segment(rng, b"p t"), good_segment(rng, tn, &mut t2))
+        };
+        target.push(b'/');
+        target.extend_from_slice(&rt);
+        target.push(b'/');
+        target.extend_from_slice(&rn);
+        path_coq = format!("(Some ({}, {}))", g_spec(&tag_spec("")), g_ws1(&[("tag", rt), ("n", rn)]));
+    }
+    // ---- query
+    let mut query_coq = "None".to_string();
+    if has_q {
+        let mut kvs: Vec<(String, String)> =
+            vec![("qtag".into(), "q t".into()), ("qn".into(), good_text(rng, tn, &mut t2))];
+        if faulty & 2 != 0 {
+            match (variant / 3) % 3 {
+                0 => {
+                    tags.push("fault:query-wrong-type".into());
+                    kvs[1].1 = "-1".into();
+                }
+                1 => {
+                    tags.push("fault:query-missing".into());
+                    kvs.remove(1);
+                }
+                _ => {
+                    tags.push("fault:query-duplicate".into());
+                    kvs.push(("qtag".into(), "again".into()));
+                }
+            }
+        }
+        let qs = enc_pairs(rng, &kvs, true, &mut t2);
+        target.push(b'?');
+        target.extend_from_slice(&qs);
+        query_coq = format!("(Some ({}, Some {}))", g_spec(&tag_spec("q")), g_bytes(&qs));
+    }
+    // ---- body
+    let bf = (variant / 9) % 6;
+    let body_bad = faulty & 4 != 0;
+    let filler = |n: usize| "x".repeat(n);
+    let (ct, body, body_coq): (Option<Vec<u8>>, Option<Vec<u8>>, String) = match body_kind {
+        MBody::None => (None, None, "MBNone".to_string()),
+        MBody::Json => {
+            let mut ct: Option<Vec<u8>> = Some(b"application/json".to_vec());
+            let mut body = b"{\"tag\":\"b t\",\"n\":7}".to_vec();
+            if body_bad {
+                match bf {
+                    0 => {
+                        tags.push("fault:body-wrong-content-type".into());
+                        ct = Some(b"text/plain".to_vec());
+                    }
+                    1 => {
+                        tags.push("fault:body-non-ascii-content-type".into());
+                        ct = Some(b"application/json; x=\xe9".to_vec());
+                    }
+                    2 => {
+                        tags.push("fault:body-syntax".into());
+                        body = b"{\"tag\":\"b t\",\"n\":".to_vec();
+                    }
+                    3 => {
+                        tags.push("fault:body-wrong-type".into());
+                        body = b"{\"tag\":\"b t\",\"n\":\"7\"}".to_vec();
+                    }
+                    4 => {
+                        tags.push("fault:body-duplicate-field".into());
+                        body = b"{\"tag\":\"b t\",\"n\":7,\"n\":8}".to_vec();
+                    }
+                    _ => {
+                        // too large AND (sometimes) of the wrong content type: the size check comes first
+                        tags.push("fault:body-too-large".into());
+                        body = format!("{{\"tag\":\"{}\",\"n\":7}}", filler(cap)).into_bytes();
+                        if variant % 2 == 0 {
+                            tags.push("fault:body-wrong-content-type".into());
+                            ct = Some(b"text/plain".to_vec());
+                        }
+                    }
+                }
+            }
+            let framing = gen_framing(rng, body.len(), &mut t2);
+            let coq = format!(
+                "(MBJson {} {} {} {})",
+                g_hdr(&ct),
+                cap,
+                g_list(&frames_of(&body, &framing), |f| g_bytes(f)),
+                g_opt(&tag_oracle(&body), |s| g_struct(s))
+            );
+            return Some(finish_multi(ep, method, target, ct, Some(body), framing, path_coq, query_coq, coq, tags));
+        }
+        MBody::Form => {
+            let mut ct: Option<Vec<u8>> = Some(b"application/x-www-form-urlencoded".to_vec());
+            let mut body = b"tag=b+t&n=7".to_vec();
+            if body_bad {
+                match bf % 5 {
+                    0 => {
+                        tags.push("fault:body-wrong-content-type".into());
+                        ct = None;
+                    }
+                    1 => {
+                        tags.push("fault:body-unknown-content-type".into());
+                        ct = Some(b"application/x-www-form".to_vec());
+                    }
+                    2 => {
+                        tags.push("fault:body-wrong-type".into());
+                        body = b"tag=b+t&n=seven".to_vec();
+                    }
+                    3 => {
+                        tags.push("fault:body-duplicate-field".into());
+                        body = b"tag=b+t&n=7&tag=c".to_vec();
+                    }
+                    _ => {
+                        tags.push("fault:body-too-large".into());
+                        body = format!("tag={}&n=7", filler(cap)).into_bytes();
+                    }
+                }
+            }
+            let framing = gen_framing(rng, body.len(), &mut t2);
+            let coq = format!(
+                "(MBForm {} {} {} {})",
+                g_spec(&tag_spec("")),
+                g_hdr(&ct),
+                cap,
+                g_list(&frames_of(&body, &framing), |f| g_bytes(f))
+            );
+            return Some(finish_multi(ep, method, target, ct, Some(body), framing, path_coq, query_coq, coq, tags));
+        }
+        MBody::Raw => {
+            let n = if body_bad {
+                tags.push("fault:body-too-large".into());
+                cap + 1 + (variant % 3) * 40
+            } else {
+                rng.below(cap)
+            };
+            let body: Vec<u8> = (0..n).map(|_| rng.below(256) as u8).collect();
+            let framing = gen_framing(rng, body.len(), &mut t2);
+            let coq = format!("(MBRaw {} {})", cap, g_list(&frames_of(&body, &framing), |f| g_bytes(f)));
+            return Some(finish_multi(ep, method, target, None, Some(body), framing, path_coq, query_coq, coq, tags));
+        }
+        MBody::Multipart => {
+            let mut ct: Option<Vec<u8>> = Some(b"multipart/form-data; boundary=XB".to_vec());
+            if body_bad {
+                match bf % 3 {
+                    0 => {
+                        tags.push("fault:body-missing-content-type".into());
+                        ct = None;
+                    }
+                    1 => {
+                        tags.push("fault:body-missing-boundary".into());
+                        ct = Some(b"multipart/form-data".to_vec());
+                    }
+                    _ => {
+                        tags.push("fault:body-wrong-content-type".into());
+                        ct = Some(b"application/json".to_vec());
+                    }
+                }
+            }
+            let body = mp_body(rng, "XB", &[("f".to_string(), b"hello".to_vec())]);
+            (ct.clone(), Some(body), format!("(MBMultipart {})", g_hdr(&ct)))
+        }
+    };
+    let framing = match &body {
+        Some(b) => gen_framing(rng, b.len(), &mut t2),
+        None => Framing::ContentLength,
+    };
+    Some(finish_multi(ep, method, target, ct, body, framing, path_coq, query_coq, body_coq, tags))
+}
+
+#[allow(clippy::too_many_arguments)]
+fn finish_multi(
+    ep: &str,
+    method: &str,
+    target: Vec<u8>,
+    ct: Option<Vec<u8>>,
+    body: Option<Vec<u8>>,
+    framing: Framing,
+    path_coq: String,
+    query_coq: String,
+    body_coq: String,
+    tags: Vec<String>,
+) -> Case {
+    let mut c = base("CMulti", "multi", ep, method, target, format!("{} {} {}", path_coq, query_coq, body_coq), tags);
+    c.ct = ct;
+    c.body = body;
+    c.framing = framing;
+    c
+}
+
+pub fn multi_fault_stream(rng: &mut Rng, rounds: usize) -> Vec<Case> {
+    let mut out = vec![];
+    let mut variant = 0usize;
+    for _ in 0..rounds {
+        for epi in 0..MULTI_EPS.len() {
+            for faulty in 1u8..8 {
+                // two or three concrete faults per stage: walk the variants
+                for _ in 0..3 {
+                    if let Some(c) = multi_fault(rng, epi, faulty, variant) {
+                        out.push(c);
+                    }
+                    variant += 7; // co-prime with 3, 9, 54: every stage's fault list is cycled through
+                }
+            }
+        }
+    }
+    out
+}
+
 pub fn gen_all(server: &Server, seed: u64, thorough: bool, out: &mut dyn Write) {
     let mut rng = Rng::new(seed ^ 0xC10);
     let mul = if thorough { 6 } else { 1 };
@@ -858,6 +1115,7 @@ pub fn gen_all(server: &Server, seed: u64, thorough: bool, out: &mut dyn Write) 
     for i in 0..30 * mul {
         cases.push(all_bad(&mut rng, i));
     }
+    cases.extend(multi_fault_stream(&mut rng, if thorough { 8 } else { 2 }));
     for c in &cases {
         let (obs, port) = run_serial(server, c);
         emit(out, &line_of(c, &obs, port));
